@@ -611,3 +611,30 @@ def path_feasible(flow, node, env):
         if isinstance(v, ast.Constant) and isinstance(v.value, bool) and v.value != t:
             return False
     return True
+
+
+def emptiness(flow, node, container):
+    """what the branch edges dominating `node` say about the emptiness of `container` (canonical *expanded* string):
+    'nonempty', 'empty' or None.  Understands len(x) > 0, len(x) != 0, len(x) >= 1, x (truthiness), not x, len(x) == 0."""
+    verdict = None
+    for a, t in facts_at(flow, node):
+        e = flow.expand(a, node)
+        s = canon(e)
+        if s == container or s == f"len({container})":
+            verdict = "nonempty" if t else "empty"
+            continue
+        c = cmp_norm(e, t)
+        if not c:
+            continue
+        l, op, r = canon(c[0]), c[1], canon(c[2])
+        ln = f"len({container})"
+        if {l, r} == {ln, "0"}:
+            if op == "!=" or (op == "<" and l == "0"):
+                verdict = "nonempty"
+            elif op == "==" or (op == "<=" and r == "0") or (op == "<" and r == "0"):
+                verdict = "empty"
+        elif l == "1" and r == ln and op == "<=":
+            verdict = "nonempty"
+        elif l == ln and r == "1" and op == "<":
+            verdict = "empty"
+    return verdict
